@@ -296,6 +296,7 @@ def main(a):
                                 "exception path inside a task": sum(v for k, v in cover.items() if k.split("|")[2] not in ("value", "skipped"))},
                 "determinism_gate": {"runs_compared": compared, "hash_mismatches": len(mism)},
                 "worker_deaths": rnd["deaths"],
+                "oracle_activity": {k[7:]: v for k, v in counters.items() if k.startswith("oracle_")},
                 "layer_L2_real_threads_under_ThreadSanitizer": dict(l2stats, wall_s=round(t_l2, 1), what="a sample of seeded plans executed with real concurrent pthreads (randomised yields at operation boundaries), the same -fsanitize=thread library objects linked against the real libtsan; bitwise oracles of the workload active; cross-validation of the simulator's own happens-before detector, not the deciding step"),
                 "real_vs_stub": {"real": ["every translation unit of libgm2calc from the working tree (compiled with -fsanitize=thread call-outs)", "libstdc++, libm, Eigen, Boost", "glibc malloc (interposed only to clear shadow state on free)"],
                                  "simulated": ["OS scheduler (one caller thread runs at a time; the seeded scheduler picks the next at every instrumented access)",
